@@ -107,6 +107,9 @@ def rand_weights(rng, n, cls):
         return [c] * n
     if cls == 'twolevel':
         return [rng.choice([0.1, 10.0]) for _ in range(n)]
+    if cls == 'arc':
+        # the circle / revolved-shape pattern: the first weight is exactly 1.0, others sqrt(2)/2 or 1
+        return [1.0 if i % 2 == 0 else 0.7071067811865476 for i in range(n)]
     return [rng.uniform(0.2, 5) for _ in range(n)]
 
 
@@ -132,7 +135,7 @@ def rand_shape(rng, pdim, rational=None, maxdeg=None, maxextra=None, dim=None, k
     if normalize:
         lohi_ = (0.0, 1.0)
     else:
-        lohi_ = lohi if lohi is not None else rng.choice([(0.0, 1.0), (2.0, 5.0), (-3.0, 7.5), (10.0, 10.5)])
+        lohi_ = lohi if lohi is not None else rng.choice([(0.0, 1.0), (2.0, 5.0), (-3.0, 7.5), (10.0, 10.5), (-1.0, 1.0), (-2.0, 2.0)])
     for p, n in zip(degs, sizes):
         c = kvcls
         if c is None:
@@ -157,7 +160,7 @@ def rand_shape(rng, pdim, rational=None, maxdeg=None, maxextra=None, dim=None, k
     sd = {'pdim': pdim, 'rational': bool(rational), 'degrees': degs, 'sizes': sizes, 'kvs': kvs,
           'ctrlpts': P, 'normalize_kv': bool(normalize), 'kvcls': classes, 'pcls': pc}
     if rational:
-        wc = wcls or rng.choice(['uniform', 'uniform', 'ones', 'const', 'twolevel'])
+        wc = wcls or rng.choice(['uniform', 'uniform', 'ones', 'const', 'twolevel', 'arc'])
         sd['weights'] = rand_weights(rng, ntot, wc)
         sd['wcls'] = wc
     if span:
@@ -183,6 +186,14 @@ def build(sd, **extra):
     kw.update(extra)
     cp = ctrlptsw_of(sd)
     pdim = sd['pdim']
+    route = sd.get('route')
+    if route == 'list' and pdim > 1:
+        # the list-form ("expert") setters: degree = [..], sizes, control points, knotvector = [..]
+        o = (mod.Surface if pdim == 2 else mod.Volume)(**kw)
+        o.degree = list(sd['degrees'])
+        o.set_ctrlpts(cp, *sd['sizes'])
+        o.knotvector = [list(k) for k in sd['kvs']]
+        return o
     if pdim == 1:
         o = mod.Curve(**kw)
         o.degree = sd['degrees'][0]
